@@ -329,7 +329,16 @@ def run_case(case):
                     if raw == cat or raw in pieces or any(raw == b"".join(pieces[:n]) for n in range(1, len(pieces) + 1)):
                         ok = True
                         break
-            if not ok and case["timing"] == "collide":
+            chance = False
+            if not ok and fr != "tcp" and case["timing"] != "collide":
+                # a remainder of the right length that is NOT the real one but happens to carry a valid checksum (one in
+                # 65536 random remainders does): the same phenomenon as the constructed collisions
+                from sim import codec
+                try:
+                    chance = codec.ref_validate(fr, codec.parse_request(net.transmissions[0]["data"], tr), raw)
+                except Exception:  # noqa
+                    chance = False
+            if not ok and (case["timing"] == "collide" or chance):
                 violations.append(viol(f"C07:checksum-collision:{fr}",
                                        f"first fragment + a corrupted remainder of equal length whose corruption keeps "
                                        f"the checksum valid was accepted: {raw.hex()} (real answer {answers[0].hex()})"))
